@@ -1,6 +1,8 @@
 import Faithful.Lib.AccumQueue
 
 /-! invariant preservation, safety and progress of the hand-off model (`Faithful/Lib/AccumQueue.lean`) -/
+set_option linter.unusedSimpArgs false
+
 namespace Accum
 
 theorem inv_init (c : Car) (ig : List UInt8) (k : UInt8) (skip npool : Nat) :
@@ -659,32 +661,40 @@ theorem inv_put (ig : List UInt8) (k : UInt8) (tot : List Group) (s : St) (app :
   · exact inv.notBad
   · simpa [bound] using inv.sentLt
 
+theorem cbWrite_some (app : Bool) (s : St) (f : FB) (i : Nat) (v : Arr) (h : cbWrite app s f = some (i, v)) :
+    i = f.sl.arr ∧ ∃ p, v = (s.store f.sl.arr).write f.sl.len p := by
+  unfold cbWrite at h
+  cases app with
+  | false => simp at h
+  | true =>
+    cases hp : f.parent with
+    | none => simp [hp] at h
+    | some p =>
+      simp only [hp] at h
+      split at h
+      · simp only [Option.some.injEq, Prod.mk.injEq] at h
+        exact ⟨h.1.symm, p, h.2.symm⟩
+      · cases h
+
 theorem cbStore_other (app : Bool) (s : St) (f : FB) (a : Nat) (h : a ≠ f.sl.arr) : cbStore app s f a = s.store a := by
   unfold cbStore
-  cases app with
-  | false => rfl
-  | true =>
-    cases f.parent with
-    | none => rfl
-    | some p =>
-      simp only
-      split
-      · exact upd_other _ _ _ _ h
-      · rfl
+  cases hw : cbWrite app s f with
+  | none => rfl
+  | some iv =>
+    obtain ⟨i, v⟩ := iv
+    obtain ⟨rfl, _⟩ := cbWrite_some app s f i v hw
+    exact upd_other _ _ _ _ h
 
 theorem cbStore_read (app : Bool) (s : St) (f : FB) (n : Nat) (h : n ≤ f.sl.len) :
     (cbStore app s f f.sl.arr).read n = (s.store f.sl.arr).read n := by
   unfold cbStore
-  cases app with
-  | false => rfl
-  | true =>
-    cases f.parent with
-    | none => rfl
-    | some p =>
-      simp only
-      split
-      · rw [upd_same]; exact Arr.read_write_le _ _ _ _ h
-      · rfl
+  cases hw : cbWrite app s f with
+  | none => rfl
+  | some iv =>
+    obtain ⟨i, v⟩ := iv
+    obtain ⟨rfl, p, rfl⟩ := cbWrite_some app s f i v hw
+    simp only [upd_same]
+    exact Arr.read_write_le _ _ _ _ h
 
 theorem inv_call (ig : List UInt8) (k : UInt8) (tot : List Group) (s : St) (app : Bool)
     (inv : Inv ig k tot s) (fb : Nat) (hc : s.cpc = .call fb) : Inv ig k tot (stepC app s) := by
@@ -703,7 +713,7 @@ theorem inv_call (ig : List UInt8) (k : UInt8) (tot : List Group) (s : St) (app 
   have hlt : (s.fbs fb).sl.arr < bound s := harrsLt _ (by simp)
   have hcurne : curLive s.ppc = true → s.cur.arr ≠ (s.fbs fb).sl.arr := by
     intro h; simp only [bound, h, if_true] at hlt; omega
-  simp only [stepC, hc]
+  rw [stepC_call app s fb hc]
   constructor
   · have h1 := inv.view
     simp only [hc, callIds, List.singleton_append, List.map_cons] at h1
@@ -893,7 +903,7 @@ theorem stepC_mu (app : Bool) (s : St) (h : enabledC s = true) : mu (stepC app s
     · rename_i hq
       simp only [hc, hq, List.isEmpty_nil, Bool.not_true, Bool.false_or] at h
       simp [h, mu, prodM, toSend, consPc, hc]
-  | call fb => simp [stepC, hc, mu, prodM, toSend, consPc]
+  | call fb => rw [stepC_call app s fb hc]; simp [hc, mu, prodM, toSend, consPc]
   | fin fb => simp [stepC, hc, mu, prodM, toSend, consPc]
   | put fb => simp [stepC, hc, mu, prodM, toSend, consPc]
   | exited => simp [hc] at h
